@@ -559,3 +559,125 @@ Proof.
     apply I6 in Hi. rewrite A1. rewrite (rid_nil_kept s D ER). unfold blen in *.
     rewrite app_length. lia.
 Qed.
+
+(** ---------------------------------------------------------------- the other ops *)
+Lemma Inv_ext : forall s s2,
+  conns s2 = conns s -> io s2 = io s -> trk s2 = trk s -> sel s2 = sel s -> Inv s -> Inv s2.
+Proof.
+  intros s s2 E1 E2 E3 E4 [I1 I2 I3 I4 I5 I6].
+  constructor; unfold ids in *; rewrite ?E1, ?E2, ?E3, ?E4; assumption.
+Qed.
+
+Lemma set_states_ids : forall ls sts, map l_id (set_states ls sts) = map l_id ls.
+Proof.
+  induction ls as [|c t IH]; intros sts; simpl; [reflexivity|].
+  destruct sts as [|st ts]; simpl; [reflexivity|]. rewrite IH. reflexivity.
+Qed.
+Lemma set_states_labs : forall ls sts, map l_lab (set_states ls sts) = map l_lab ls.
+Proof.
+  induction ls as [|c t IH]; intros sts; simpl; [reflexivity|].
+  destruct sts as [|st ts]; simpl; [reflexivity|]. rewrite IH. reflexivity.
+Qed.
+Lemma set_states_length : forall ls sts, length (set_states ls sts) = length ls.
+Proof.
+  induction ls as [|c t IH]; intros sts; simpl; [reflexivity|].
+  destruct sts as [|st ts]; simpl; [reflexivity|]. rewrite IH. reflexivity.
+Qed.
+Lemma upd_nth_ids : forall n st ls, map l_id (upd_nth n st ls) = map l_id ls.
+Proof.
+  induction n as [|n IH]; intros st ls; destruct ls as [|c t]; simpl; try reflexivity.
+  rewrite IH. reflexivity.
+Qed.
+Lemma upd_nth_labs : forall n st ls, map l_lab (upd_nth n st ls) = map l_lab ls.
+Proof.
+  induction n as [|n IH]; intros st ls; destruct ls as [|c t]; simpl; try reflexivity.
+  rewrite IH. reflexivity.
+Qed.
+Lemma upd_nth_length : forall n st ls, length (upd_nth n st ls) = length ls.
+Proof.
+  induction n as [|n IH]; intros st ls; destruct ls as [|c t]; simpl; try reflexivity.
+  rewrite IH. reflexivity.
+Qed.
+Lemma nth_link_some : forall i ls c,
+  nth_link i ls = Some c -> 0 <= i < blen ls /\ In c ls.
+Proof.
+  intros i ls c. unfold nth_link. destruct (0 <=? i) eqn:E; [|discriminate].
+  intro H. split.
+  - assert (Hlt : (Z.to_nat i < length ls)%nat) by (apply nth_error_Some; congruence).
+    unfold blen. lia.
+  - eapply nth_error_In. exact H.
+Qed.
+
+Lemma next_inv : forall s o, Inv s -> wf_op s o -> Inv (fst (fst (next s o))).
+Proof.
+  intros s o HI Hwf. destruct o as [ips fail fresh now|file oc now|fail fresh now|ips fail fresh now
+                                  |fwd seq now sts|i st|i st]; simpl in *.
+  - (* OCreate *)
+    destruct HI as [I1 I2 I3 I4 I5 I6]. destruct Hwf as [Hf1 [Hf2 Hf3]].
+    destruct (create_props ips fail fresh (io s) (next_tok s)) as [C1 [C2 [C3 [C4 [C5 C6]]]]].
+    destruct (create ips fail fresh (io s) (next_tok s)) as [[added m'] tok'] eqn:EC.
+    simpl in *.
+    assert (Hsub : forall x, In x (map l_id added) -> In x (map fst fresh)).
+    { intros x Hx. rewrite C1 in Hx. eapply In_firstn'. exact Hx. }
+    constructor; unfold ids in *; simpl.
+    + rewrite map_app. apply NoDup_app'; [exact I1| |].
+      * rewrite C1. apply NoDup_firstn. exact Hf1.
+      * intros x Hx Hy. apply Hsub in Hy. apply (Hf2 _ Hy). exact Hx.
+    + exact I2.
+    + apply C4. exact I3.
+    + intro x. rewrite C3. rewrite map_app. rewrite in_app_iff. rewrite I4. tauto.
+    + intros k e Hin. rewrite map_app. apply in_or_app. left. eapply I5. exact Hin.
+    + intros i Hi. apply I6 in Hi. unfold blen in *. rewrite app_length. lia.
+  - (* OSighup *)
+    destruct (analyze_file oc file); simpl; [|exact HI].
+    eapply Inv_ext; [| | | |exact HI]; reflexivity.
+  - (* OTick *)
+    destruct (pend s) as [ips|] eqn:EP; [|exact HI].
+    pose proof (apply_inv ips fail fresh s HI Hwf) as H.
+    destruct (apply_changes ips fail fresh s) as [s' att]. simpl in *.
+    eapply Inv_ext; [| | | |exact H]; reflexivity.
+  - (* OApply *)
+    pose proof (apply_inv ips fail fresh s HI Hwf) as H.
+    destruct (apply_changes ips fail fresh s) as [s' att]. exact H.
+  - (* ORoute *)
+    destruct HI as [I1 I2 I3 I4 I5 I6].
+    destruct fwd as [i|].
+    + destruct (nth_link i (conns s)) as [c|] eqn:EN.
+      * apply nth_link_some in EN. destruct EN as [Hr Hc].
+        constructor; unfold ids in *; simpl; rewrite ?set_states_ids; auto.
+        -- destruct seq as [q|]; [|exact I2]. unfold trk_insert. simpl. constructor.
+           ++ intro Hin. apply in_map_iff in Hin. destruct Hin as [[k e] [Hk Hin]].
+              apply filter_In in Hin. simpl in *. subst k. rewrite Z.eqb_refl in Hin.
+              destruct Hin; discriminate.
+           ++ apply NoDup_map_filter. exact I2.
+        -- intros k e Hin. destruct seq as [q|]; [|eapply I5; exact Hin].
+           unfold trk_insert in Hin. destruct Hin as [Hin|Hin].
+           ++ injection Hin as _ He. subst e. simpl. apply in_map. exact Hc.
+           ++ apply filter_In in Hin. eapply I5. apply Hin.
+        -- intros j Hj. injection Hj as Hj. subst j. unfold blen in *.
+           rewrite set_states_length. exact Hr.
+      * constructor; unfold ids in *; simpl; rewrite ?set_states_ids; auto.
+        intros j Hj. unfold blen in *. rewrite set_states_length. apply I6. exact Hj.
+    + constructor; unfold ids in *; simpl; rewrite ?set_states_ids; auto.
+      intros j Hj. unfold blen in *. rewrite set_states_length. apply I6. exact Hj.
+  - (* OTouch *)
+    destruct (nth_link i (conns s)) as [c|]; [|exact HI].
+    destruct HI as [I1 I2 I3 I4 I5 I6].
+    constructor; unfold ids in *; simpl; rewrite ?upd_nth_ids; auto.
+    intros j Hj. unfold blen in *. rewrite upd_nth_length. apply I6. exact Hj.
+  - (* OReconn *)
+    destruct (nth_link i (conns s)) as [c|] eqn:EN; [|exact HI].
+    apply nth_link_some in EN. destruct EN as [Hr Hc].
+    destruct HI as [I1 I2 I3 I4 I5 I6].
+    constructor; unfold ids in *; cbn [conns io trk sel pend next_tok]; rewrite ?upd_nth_ids; auto.
+    + apply NoDup_keys_insert. exact I3.
+    + intro x. rewrite keys_insert. rewrite I4. split; [|tauto].
+      intros [H|H]; [subst x; apply in_map; exact Hc|exact H].
+    + intros j Hj. unfold blen in *. rewrite upd_nth_length. apply I6. exact Hj.
+Qed.
+
+Lemma final_inv : forall ops s, Inv s -> wf_ops s ops -> Inv (final_from s ops).
+Proof.
+  induction ops as [|o t IH]; intros s HI Hwf; simpl in *; [exact HI|].
+  destruct Hwf as [H1 H2]. apply IH; [apply next_inv; assumption|exact H2].
+Qed.
